@@ -33,6 +33,8 @@ def jobs(tier, seed):
         J.append(dict(name="rec:bf3:setconfig:%s" % cfg, kind="rec", framing="bf3", how="setconfig", cfg=cfg[0], timeout=600, cost=50))
     for n in ([1, 16, 33] if tier == "quick" else [1, 15, 16, 17, 32, 33, 48]):
         J.append(dict(name="rec:bec2:direct:n%d" % n, kind="rec", framing="bec2", how="direct", n=n, timeout=900, cost=100 + n))
+    # long content (chaining across 1 KiB boundaries): 1041 bytes, symbolic at the block boundaries only
+    J.append(dict(name="rec:bf3:direct:n1041-sparse", kind="rec", framing="bf3", how="direct", n=1041, sparse=True, timeout=3000, cost=900))
     J.append(dict(name="rec:twin", kind="rec", framing="bf3", how="direct", n=17, twin=True, expect="violated", timeout=300))
     for n in ([1, 16, 17, 33] if tier == "quick" else list(range(1, 49, 5)) + [16, 17, 32, 33]):
         for framing in ("bf3", "bec2"):
@@ -67,7 +69,14 @@ def run_job(job):
             key = sym.sym_bytes("key", 16)
             vals = dict(key=key)
             f = bf.Bf3File({}, [bf.Bf3Component({0xC3: b"\x02"}, sym.sym_bytes("fw", 3))])
-            if how == "direct":
+            if how == "direct" and job.get("sparse"):
+                # mostly concrete content; symbolic bytes in the first block, around every 1024-byte
+                # boundary and at the end
+                symat = set([0, 1, 15, 16, 1007, 1008, 1023, 1024, 1025, 1039, 1040])
+                content = bytes((sym.sym_int("c%d_" % i, 0, 256) if i in symat else (i * 7 + 3) % 256) for i in range(job["n"]))
+                f.components.append(_mk_comp(bf, content, job["n"]))
+                vals["content"] = content
+            elif how == "direct":
                 content = sym.sym_bytes("content", job["n"])
                 f.components.append(_mk_comp(bf, content, job["n"]))
                 vals["content"] = content
